@@ -22,6 +22,8 @@ LPS = "warp_core::provenance_store::LocalProvenanceStore"
 EN = "warp_core::engine_impl::Engine"
 GU = "warp_core::engine_impl::RuntimeCommitStateGuard"
 EVIDENCE = {"scheduler_faults", "faulted_heads", "runtime_fault", "next_scheduler_fault_generation"}
+# fields that exist only under the host_test feature (fault-injection seams), never in a production build
+TEST_SEAMS = {"fail_next_echo_operation_action_tick_construction"}
 
 
 def run(ctx):
@@ -102,6 +104,9 @@ def run(ctx):
     for fld in sorted(bmods):
         if fld in EVIDENCE:
             rep.ok("C09.R2", "frame:WorldlineRuntime.%s:evidence" % fld, "fault evidence (kept on failure by design)", site=WR)
+            continue
+        if fld in TEST_SEAMS:
+            rep.ok("C09.R2", "frame:WorldlineRuntime.%s:test-seam" % fld, "host_test-only fault-injection flag", site=WR)
             continue
         rep.check(fld in allowed, "C09.R2", "frame:WorldlineRuntime.%s" % fld, "written by the pass and by restore/rollback",
                   "the pass can write WorldlineRuntime.%s (%s:%s) but neither restore nor the correlation rollback writes it" % (fld, bmods[fld][0][0], bmods[fld][0][1]),
